@@ -335,12 +335,23 @@ func registerC01() {
 		rule: "case = coordinator options + discovered set + explorer table + per-shard scripted reports/health for one cycle, executed R times (map order, random choice) through the real Coordinator.Run; " +
 			"directed families (two and three copies of one target in every state/scrape-count/load-order combination, next to out-of-sync holders; vanished targets; a tail shard whose targets fit the front shards for some first-fit orders only, 40 repetitions each; an unassigned target that fits only into shards with less than 1 % of free space) followed by seed-determined random cases; " +
 			"plus closed loops on engine E2 (48/1600): even ones with 11-13 simulated pods listed and scaled by the REAL Kubernetes managers over a client-go fake (pods created in shuffled order, targets on high ordinals, scale-down enabled in most), odd ones random fault-free workloads; orphan rule per cycle in which all shards were in sync: listed before, still discovered => listed by a remaining shard after; " +
+			"plus 2/6 cases on the real binaries (engine E7): the coordinator process is killed and restarted while the sidecars keep their targets and the configuration is unchanged; at every snapshot during the first 25 cycles of the new process every target is listed by some shard; " +
 			"non-trivial = at least 2 shards and a discovered target reported by an in-sync shard; distinct = hash of the case with sizes bucketed",
 		judge: judgeC01, nDirect: nA + nB + nC + nD + nE, direct: direct,
 		nRandom: map[string]int{"quick": 20000, "thorough": 300000},
 		// closed loops (engine E2), half of them with 11-13 shards listed and scaled by the real Kubernetes managers
-		nExtra: map[string]int{"quick": 48, "thorough": 1600},
-		extra:  c01ClosedLoop,
+		nExtra: map[string]int{"quick": 48 + 2, "thorough": 1600 + 6},
+		extra: func(w *core.WorkerCtx, k int) *core.CaseResult {
+			n := 48
+			if w.Tier == "thorough" {
+				n = 1600
+			}
+			if k >= n {
+				// the real binaries: the coordinator process restarts next to sidecars that keep their targets
+				return e7.Run(w, k-n, "C01")
+			}
+			return c01ClosedLoop(w, k)
+		},
 		nontriv: func(v *view) bool {
 			if v.n < 2 {
 				return false
@@ -524,7 +535,7 @@ func registerC04() {
 	register(&propDef{
 		id: "C04",
 		rule: "same engine as C01 with boundary-biased loads; directed families force each placement path (first assignment first-fit and weighted, head relief at every threshold, process relief, scale-down emptying the tail, oversized targets, several placements on one destination) with load+size at limit-1/limit/limit+1; " +
-			"plus real-process cases (2/8, engine E7): estimates from the real explorer probing 80-130 KB bodies (several parser blocks), a process limit two targets fit under and three do not, one oversized target with few kept series; at every snapshot the farm's TRUE totals of the targets a shard lists stay below the limit; " +
+			"plus real-process cases (2/8, engine E7): estimates from the real explorer probing 80-130 KB bodies (several parser blocks), a process limit two targets fit under and three do not, one oversized target with few kept series, and one big target whose first answer breaks off after 40 lines with a TCP reset; at every snapshot the farm's TRUE totals of the targets a shard lists stay below the limit; " +
 			"non-trivial = at least one placement observed or an oversized eligible target present; distinct = hash of the case with sizes bucketed",
 		judge: judgeC04, nDirect: nA + nB + nC + nD + nE + nF, direct: direct,
 		// real processes: the estimates come from the real explorer probing targets with bodies of several parser blocks
